@@ -45,6 +45,17 @@ def render(name, ops, k):
             toks.append(spell_reg_text(v, k + i))
         else:
             toks.append(spell_int(v, k // 3 + i))
+    # one register operand written through a register alias defined on the line before (RA = x9 / c.mv RA, x11)
+    h0 = (k * 40503 + 17) & 0xffff
+    regs_at = [i for i, (kind, _) in enumerate(ops) if kind == 'r']
+    if regs_at and h0 % 5 == 2:
+        i = regs_at[(h0 >> 4) % len(regs_at)]
+        alias = ['RA', 'dst', 'W', 'base_reg'][(h0 >> 8) % 4]
+        return '%s = %s\n' % (alias, toks[i]) + _render(name, ops, k, toks[:i] + [alias] + toks[i + 1:])
+    return _render(name, ops, k, toks)
+
+
+def _render(name, ops, k, toks):
     seps = [' ', ', ', ',', '\t', '  ,  ']
     h = (k * 2654435761) & 0xffffffff          # spelling choices independent of the position of the mnemonic in its table
     line = name.upper() if h % 11 == 0 else name.capitalize() if h % 11 == 5 else name
